@@ -13,12 +13,14 @@ let doc_items_s d = cat "" (L.map (fun p -> "[" ^ items_s p ^ "]") d)
 let deb822_parse (fs : string list) : string =
   let s = str_of_hex (L.nth fs 0) in
   let lx = res_str tokens_s (Deb822Lex.lex s) in
+  (* the byte-level lexer (model/ByteLex.v: every slice at a byte offset, PANIC off a boundary) *)
+  let blx = res_str tokens_s (ByteLex.bytelex s) in
   let rel = res_str (fun (t, n) ->
       Printf.sprintf "text=%s|nerr=%d|depth=%d|paras=%s" (hx (text t)) (int_of_nat n)
         (int_of_nat (depth t)) (doc_items_s (Deb822Parse.doc_items t))) (Deb822Parse.from_str_relaxed s) in
   let strict = res_str (fun t -> "OK:" ^ hx (text t) ^ ":" ^ doc_items_s (Deb822Parse.doc_items t)) (Deb822Parse.from_str s) in
   let rd = res_str (fun t -> "OK:" ^ hx (text t)) (Deb822Parse.read s) in
   let rdr = res_str (fun (t, n) -> Printf.sprintf "%s:%d" (hx (text t)) (int_of_nat n)) (Deb822Parse.read_relaxed s) in
-  Printf.sprintf "lex=%s|%s|strict=%s|read=%s|readr=%s" lx rel strict rd rdr
+  Printf.sprintf "lex=%s|blex=%s|%s|strict=%s|read=%s|readr=%s" lx blx rel strict rd rdr
 
 let () = register "deb822-parse" deb822_parse
